@@ -33,6 +33,9 @@ struct Shared {
     write_hiccup: Option<(usize, io::ErrorKind)>,
     /// the next write call sleeps this long first (the calling thread - the I/O thread - is stalled)
     park_next_write_ms: u64,
+    /// the next re-registration that asks for writable sleeps this long first (it is the last thing
+    /// a pass of the I/O loop does before it polls again)
+    park_next_rereg_ms: u64,
     reads: usize,
     writes: usize,
     dropped: bool,
@@ -66,6 +69,7 @@ pub fn pair() -> (MockStream, Peer) {
             write_fault_after: None,
             write_hiccup: None,
             park_next_write_ms: 0,
+            park_next_rereg_ms: 0,
             reads: 0,
             writes: 0,
             dropped: false,
@@ -201,6 +205,12 @@ impl Evented for MockStream {
         self.registration.register(poll, token, interest, opts)
     }
     fn reregister(&self, poll: &Poll, token: Token, interest: Ready, opts: PollOpt) -> io::Result<()> {
+        if interest.is_writable() {
+            let park = std::mem::replace(&mut self.shared.0.lock().unwrap().park_next_rereg_ms, 0);
+            if park > 0 {
+                std::thread::sleep(Duration::from_millis(park));
+            }
+        }
         self.registration.reregister(poll, token, interest, opts)
     }
     fn deregister(&self, poll: &Poll) -> io::Result<()> {
@@ -306,6 +316,11 @@ impl Peer {
     /// The k-th write call from now that finds the transport willing fails once with `kind`.
     pub fn hiccup_write_after(&self, k: usize, kind: io::ErrorKind) {
         self.shared.0.lock().unwrap().write_hiccup = Some((k, kind));
+    }
+
+    /// The next re-registration for writable stalls its thread for `ms` first.
+    pub fn park_next_rereg(&self, ms: u64) {
+        self.shared.0.lock().unwrap().park_next_rereg_ms = ms;
     }
 
     /// The next write call stalls its thread for `ms` before it proceeds.
